@@ -141,10 +141,10 @@ func (t *v2T) build(id string, thr float64, docs []v2Doc) *v2C {
 }
 
 func (t *v2T) add(c *v2C, d v2Doc) {
-	cp := append([]byte(nil), d.Data...)
+	cp := v2Spare(d.Data)
 	d0, w0 := len(c.c.docs), len(c.c.dict.words)
 	c.c.AddContent(d.Cat, d.Name, d.Variant, cp)
-	t.emit(map[string]interface{}{"ev": "add", "c": c.id, "key": d.Key, "unchanged": bytes.Equal(cp, d.Data),
+	t.emit(map[string]interface{}{"ev": "add", "c": c.id, "key": d.Key, "unchanged": v2Intact(cp, d.Data),
 		"docs": []int{d0, len(c.c.docs)}, "dict": []int{w0, len(c.c.dict.words)}})
 }
 
@@ -197,7 +197,9 @@ type v2Res struct {
 func (t *v2T) match(c *v2C, data []byte, o v2MatchOpts) *v2Res {
 	in := t.newIn()
 	res := &v2Res{In: in}
-	cp := append([]byte(nil), data...)
+	// the callee gets a slice with spare capacity (as buf[:n] of a larger buffer is): the bytes behind its length belong
+	// to the caller as well
+	cp := v2Spare(data)
 	d0, w0 := len(c.c.docs), len(c.c.dict.words)
 	var scoreEvents []map[string]interface{}
 	var wdoc *indexedDocument
@@ -307,7 +309,7 @@ func (t *v2T) match(c *v2C, data []byte, o v2MatchOpts) *v2Res {
 	ev := map[string]interface{}{"ev": "match", "c": c.id, "in": in, "api": api, "err": "nil",
 		"nlines": bytes.Count(data, []byte("\n")) + 1, "nwords": len(wdoc.Tokens),
 		"thr": rk[c.thr], "one": rk[1.0], "total": r.TotalInputLines, "ms": ms,
-		"unchanged": bytes.Equal(cp, data), "docs": []int{d0, len(c.c.docs)}, "dict": []int{w0, len(c.c.dict.words)},
+		"unchanged": v2Intact(cp, data), "docs": []int{d0, len(c.c.docs)}, "dict": []int{w0, len(c.c.dict.words)},
 		"memo": o.memo, "scored": o.scored, "lines": []int{}, "hash": v2Hash(data)}
 	if os.Getenv("VERIF_DUMP_INPUTS") != "" && len(data) < 30000 {
 		ev["input_b64"] = vuB64(data)
@@ -432,6 +434,28 @@ func (t *v2T) pair(a, b *v2Res, kind string, dtok int, lmap []int, nocopy bool, 
 		ev[k] = v
 	}
 	t.emit(ev)
+}
+
+// v2Spare copies b into a slice with 24 bytes of spare capacity filled with a sentinel; v2Intact checks both parts.
+func v2Spare(b []byte) []byte {
+	full := make([]byte, len(b)+24)
+	copy(full, b)
+	for i := len(b); i < len(full); i++ {
+		full[i] = 0xA5
+	}
+	return full[:len(b)]
+}
+
+func v2Intact(cp, orig []byte) bool {
+	if !bytes.Equal(cp, orig) {
+		return false
+	}
+	for _, x := range cp[len(cp):cap(cp)] {
+		if x != 0xA5 {
+			return false
+		}
+	}
+	return true
 }
 
 func v2Ident(n int) []int {
